@@ -219,6 +219,26 @@ def gen_spin_model(rng, n=None, conserve=False, sigma_names=True):
     return TModel(sites, terms, "spin-u1" if conserve else "spin")
 
 
+def gen_collective_model(rng, n=None):
+    """all-to-all exchange with a rank-one sign pattern, U(1) labels:  g sum_{i != j} s_i s_j s+_i s-_j  + weak fields.
+    In the one-excitation sector one collective state sits at about g (n-1), all others near -g: local spectra skewed to one side
+    (what shift-and-invert / largest-magnitude shortcuts of iterative eigensolvers are sensitive to)."""
+    n = n or int(rng.integers(4, 7))
+    qn = [(0,), (1,)]
+    sites = [Site("spin", f"s{i}", 2, qn) for i in range(n)]
+    g = float(np.round(rng.uniform(0.6, 1.4) * rng.choice([-1, 1]), 3))
+    sg = [int(rng.choice([-1, 1])) for _ in range(n)]
+    terms = []
+    for i in range(n):
+        for j in range(i + 1, n):
+            c = g * sg[i] * sg[j]
+            terms.append((c, [(i, "sigma_+"), (j, "sigma_-")]))
+            terms.append((c, [(i, "sigma_-"), (j, "sigma_+")]))
+    for i in range(n):
+        terms.append((float(np.round(rng.uniform(-0.05, 0.05), 3)) or 0.01, [(i, "sigma_z")]))
+    return TModel(sites, terms, "spin-u1-collective")
+
+
 def gen_eph_model(rng, nmol=None, two_qn=False, nmode_per_mol=None, nbas=None, interleave=True):
     """Holstein-like model: sum J (a+_i a_j + h.c.) + eps a+a + w b+b + g a+a (b+ + b), generic Model
     (not HolsteinModel).  two_qn: molecules alternate between species (1,0) / (0,1)."""
